@@ -632,7 +632,7 @@ def run_case(ops, kind):
     return c, model_lines(real_ops, connect), visible(real_ops)
 
 
-def explore(seed_stream, n, n_reuse, maxlen, corpus=()):
+def explore(seed_stream, n, n_reuse, maxlen, corpus=(), budget=80.0):
     r = rng.make(seed_stream)
     cases = []; lines = []; spans = []
     def add(ops, kind):
@@ -642,10 +642,11 @@ def explore(seed_stream, n, n_reuse, maxlen, corpus=()):
         cases.append(c)
     for ops in corpus:
         add(ops, 'corpus')
-    for _ in range(n):
-        add(gen_ops(r, maxlen), 'gen')
-    for _ in range(n_reuse):
-        add(gen_ops(r, maxlen, reuse=True), 'reuse')
+    t0 = time.time()
+    for i in range(n + n_reuse):
+        add(gen_ops(r, maxlen, reuse=(i % (n // max(1, n_reuse) + 1) == 0)), 'gen')
+        if time.time() - t0 > budget or len([c for c in cases[-200:] if c.oracle_ok is False and c.finding is None]) >= 25:
+            break
     return cases, lines, spans
 
 def fill_model(cases, lines, spans):
@@ -729,7 +730,7 @@ def run(ctx):
         n, n_reuse, maxlen = 60000, 3000, 90
     else:
         n, n_reuse, maxlen = 5200, 300, 60
-    cases, lines, spans = explore('c19', n, n_reuse, maxlen, load_corpus())
+    cases, lines, spans = explore('c19', n, n_reuse, maxlen, load_corpus(), budget=(840.0 if ctx.thorough else 75.0))
     status, wcase = reuse_witness_status()
     if build.driver_ok:
         fill_model(cases, lines, spans)
